@@ -20,8 +20,23 @@ def main():
     if a.replay:
         return mod.replay(a.replay)
     rep = F.Report(prop, a.tier, seed)
+    # the hand-written model is tied to the source text it was written after: when an anchored source file
+    # has changed, the model may be stale, so this run generates cases at the thorough tier's depth
+    import anchors
+    stale = anchors.changed(prop)
+    gen_tier = a.tier
+    # only where the thorough tier is measured to stay within a couple of minutes (DESIGN 11.7)
+    ESCALATE = {"C03", "C04", "C05", "C07", "C08", "C09", "C10", "C12", "C15", "C16", "C19"}
+    if stale and prop not in ESCALATE:
+        rep.extra["anchored_sources_changed"] = stale
+        rep.notes.append(f"NOTE property={prop}: source changed since the model was written ({', '.join(stale)})")
+    elif stale and os.environ.get("VERIF_NO_ESCALATE") != "1":
+        gen_tier = "thorough"
+        rep.extra["anchored_sources_changed"] = stale
+        rep.notes.append(f"NOTE property={prop}: source changed since the model was written ({', '.join(stale)}); "
+                         f"case generation escalated to the thorough tier for this run")
     try:
-        return mod.main(rep, a.tier, seed)
+        return mod.main(rep, gen_tier, seed)
     except Exception:
         # a crash of the machinery is never reported as a pass
         tb = traceback.format_exc()
